@@ -30,8 +30,9 @@ WRAP = ("-Wl,--wrap=malloc,--wrap=calloc,--wrap=realloc,--wrap=strdup",)
 
 QUICK = ["s_grow", "w_snappy", "r_fread", "b_mmap"]
 THOROUGH = QUICK + ["s_flat", "s_group", "s_long", "w_plain", "w_gzip", "w_lz4", "w_zstd", "w_file", "w_close", "w_cont",
-                    "w_long", "w_int96", "r_mmap", "r_buffer", "r_zstd", "r_lz4", "r_long", "r_cont", "b_fread", "b_buffer",
-                    "b_cont", "b_par"]
+                    "w_long", "w_wide", "r_mmap", "r_buffer", "r_zstd", "r_lz4", "r_long", "r_cont", "b_fread", "b_buffer",
+                    "b_cont", "b_par", "w_wide160", "r_wide160", "b_wide160", "w_snappy_c", "w_plain_n", "r_fread_n", "r_mmap_n",
+                    "b_mmap_n", "b_buffer_n"]
 UNJUDGED_DATA = {"b_par"}          # multi-threaded: the k-th request is not a fixed one; only fault = none is judged
 
 GEN_CFG = """CONSTANT ScnIds = {%s}
@@ -206,6 +207,7 @@ ASAN_KIND = {"SEGV": "crash", "heap-use-after-free": "uaf", "heap-buffer-overflo
 def carquet_frames(text):
     out = []
     for fn, loc in _re_frame.findall(text):
+        fn = re.sub(r"\.(_omp_fn|constprop|isra|part|cold)(\.\d+)?", "", fn)
         if "/src/" in loc and "/harness/" not in loc and "libsanitizer" not in loc:
             f = loc.rsplit("/", 1)[-1]
             parts = f.split(":")
@@ -271,7 +273,7 @@ def _run_chunk(binary, lines, env, per_case_timeout):
         for ln in out.splitlines():
             if ln.startswith("BEGIN "):
                 current = ln[6:].strip()
-            elif current is not None and ln.split(" ", 1)[0] == current:
+            elif current is not None and ln.split(" ", 1)[0] == current and re.search(r" A=\d+:\d( LEAK)?$", ln):
                 r = results.setdefault(current, CaseResult())
                 r.toks = ln.split(" ")[1:]
                 done.add(current)
@@ -353,6 +355,10 @@ def parse_M(val):
     leaves = []
     for lf in f[6:]:
         p = lf.split(",")
+        if len(p) != 6 or not all(re.fullmatch(r"-?\d+", x) for x in p[1:]):
+            common.log("C19: odd leaf in metadata dump: %r" % lf[:120])
+            leaves.append({"path": [name_of_tok("?")], "type": -1, "rep": -1, "tlen": -1, "maxDef": -1, "maxRep": -1})
+            continue
         nm = name_of_tok(p[0])
         leaves.append({"path": [nm], "type": int(p[1]), "rep": int(p[2]), "tlen": int(p[3]), "maxDef": int(p[4]), "maxRep": int(p[5])})
     return rows, nrg, rgs, leaves
@@ -423,7 +429,7 @@ def events_of(cid, scn, toks):
             break
         base = {"id": cid, "armed": armed, "hit": hit}
         if val in ("skip", "nowriter", "noreader", "nocol", "nobr", "noschema"):
-            if o == "ROpen":
+            if o in ("ROpen", "RbOpen"):
                 nxt()                       # the M token
             continue
         if o == "Create":
@@ -526,6 +532,7 @@ def events_of(cid, scn, toks):
                 ev.append(dict(base, e="CloseReader"))
             live["reader"] = False
         elif o == "SchemaCreate":
+            live["schema"] = val == "ok"
             ev.append(dict(base, e="SchemaCreate", ok=(val == "ok")))
         elif o == "AddColumn":
             ev.append(dict(base, e="AddColumn", name=norm_name(op["name"]), type=op["type"], rep=op["rep"], tlen=op["tlen"], st=_int(val)))
@@ -543,7 +550,9 @@ def events_of(cid, scn, toks):
                 elems.append({"name": name_of_tok(p[0]), "leaf": p[1] == "1", "type": int(p[2]), "rep": int(p[3]), "tlen": int(p[4])})
             ev.append(dict(base, e="SchemaDump", ne=ne, nl=nl, elems=elems, leaves=[int(x) for x in f[2 + ne:2 + ne + nl]]))
         elif o == "SchemaFree":
-            ev.append(dict(base, e="SchemaFree"))
+            if live.get("schema"):
+                ev.append(dict(base, e="SchemaFree"))
+            live["schema"] = False
     ev.append({"id": cid, "e": "End", "leak": meta["leak"]})
     return ev, meta
 
@@ -751,7 +760,7 @@ def run(chk, tier, replay):
         for sig, rcs in want.items():
             if any((rc, sig) in again for rc in rcs):
                 confirmed.add(sig)
-    chk.part("alarms", signatures={s: len(o) for s, o in found.items()}, confirmed_on_rerun=len(confirmed))
+    chk.part("alarms", signatures={s: len(set(c for c, _, _ in o)) for s, o in found.items()}, confirmed_on_rerun=len(confirmed))
     for sig, occ in found.items():
         if sig not in confirmed:
             common.log("C19: %s not reproduced on re-execution (%d occurrences) - not reported" % (sig, len(occ)))
@@ -760,10 +769,10 @@ def run(chk, tier, replay):
         cid, w, v = occ[0]
         i, k = meta_of[cid]
         r = results.get(cid)
-        ks = sorted(meta_of[c][1] for c, _, _ in occ)
+        ks = sorted(set(meta_of[c][1] for c, _, _ in occ))
         inj = ["%s@%s:%s" % f for f in (r.inject or [])[:4]] if r else []
         what = "scenario %s, allocation request k=%d fails (%d fault points of this signature: %s): %s at event %s; failed request at %s" % (
-            i, k, len(occ), ks[:12], w, v["e"], " <- ".join(inj) or "?")
+            i, k, len(ks), ks[:12], w, v["e"], " <- ".join(inj) or "?")
         if r is not None and r.fault:
             what += "; %s: %s" % (r.fault[1], r.fault[2])
         for _cid, _w, _v in occ:
